@@ -483,8 +483,11 @@ class XPathToken(Token[ta.XPathTokenType]):
                         yield value
 
                     if value is None:
-                        msg = f"argument node {item!r} does not have a typed value"
-                        raise self.error('FOTY0012', msg)
+                        xsd_type = getattr(item, 'xsd_type', None)
+                        if xsd_type is None or xsd_type.is_element_only():
+                            msg = f"argument node {item!r} does not have a typed value"
+                            raise self.error('FOTY0012', msg)
+                        # otherwise an empty typed value: a nilled element or an empty xs:list
                 else:
                     value = item.compat_string_value
                     yield value
